@@ -80,6 +80,7 @@ def main():
         finally:
             sh(["git", "-C", "/repo", "checkout", "--", "."])
             sh(["git", "-C", "/repo", "clean", "-fdq", "src", "tests"])
+            sh([sys.executable, "/verif/tools/gen.py"])  # restore the generated Lean files for the unchanged tree
     meta["check_results"] = results
     meta["detected"] = any(r["exit"] == 1 for r in results.values())
     out_dir = "/verif/seeded/%s" % name
